@@ -190,10 +190,30 @@ Theorem hooks_meaning : forall t gs, compile_tree t = Graphs gs ->
 Proof. exact hooks_meaning_lemma. Qed.
 Print Assumptions hooks_meaning.
 
-Theorem metadata_pattern_hooks_iff_value_not_none : forall w ob t,
-  In t (fst (m_obs (MMeta w) 0%nat ob)) <-> In t ob /\ meta_of (t_meta t) w <> MVNone.
+Theorem metadata_pattern_hooks_iff_value_not_none : forall w ts x,
+  In x (fst (m_obs (MMeta w) 0%nat (OTraits ts))) <->
+  exists t, In t ts /\ meta_of (t_meta t) w <> MVNone /\ x = trait_item t.
 Proof. exact metadata_hooks_iff_not_none. Qed.
 Print Assumptions metadata_pattern_hooks_iff_value_not_none.
+
+Theorem expression_hooks_meaning : forall e gs, create_graphs e [] = Some gs ->
+  forall h o x, In x (flat_map (hook_graph h o) gs) <-> In x (flat_map (hook_path h o) (paths e)).
+Proof. exact expr_hooks. Qed.
+Print Assumptions expression_hooks_meaning.
+
+(* "items" at run time, on every heap: on a list / dict / set it is the container itself (and the rest of the path
+   applies to its items / values); on a HasTraits object the trait named items if there is one; never an error *)
+Theorem items_is_four_way_at_run_time : forall h o l,
+  let ob := nth_obj h o in
+  flat_map (hook_mpath h o) (raw_paths TItems l) =
+  match ob with
+  | OTraits ts => match find_trait ts items_word with
+                  | Some t => if notify_of l then [Hit o (t_name t)] else []
+                  | None => [] end
+  | _ => if notify_of l then [Hit o []] else []
+  end.
+Proof. exact items_runtime. Qed.
+Print Assumptions items_is_four_way_at_run_time.
 
 (* the end-to-end hook law (clauses 16, 17) evaluated on the model's own walk over the probe heap holds for every
    text the model compiles: what is checked on the implementation is proved of the model *)
@@ -242,10 +262,12 @@ Example spellings_nontrivial :
   /\ outcome_same (compile_str [a; CDotC; CLbr; b; CCommaC; d; CRbr]) (compile_str [a; CDotC; CLbr; b; CCommaC; c; CRbr]) = false.
 Proof. vm_compute. repeat split; try reflexivity. discriminate. Qed.
 
-(* Non-vacuity for hooks_meaning, on the probe heap of the correspondence (root with child; metadata tag = True, False,
-   0, "", (), None, absent): "+tag" hooks the five traits whose tag is not None on the root (codes 0..4), "child:+tag"
-   the same five on the child without hooking child itself, "child.*" hooks child and all eight traits of the child,
-   "nope" raises. *)
+(* Non-vacuity for hooks_meaning, on the probe heap of the correspondence (root with child, kids = list of two Leafs,
+   table = dict with one Leaf value, group = set of one Leaf; metadata tag = True, False, 0, "", (), None, absent):
+   "+tag" hooks the five traits whose tag is not None on the root (codes 0..4); "child:+tag" the same five on the child
+   without hooking child itself; "child.*" hooks child and all eight traits of the child; "kids.items.t_zero" hooks
+   kids (10), the list itself (16*2+9) and t_zero on both items (objects 3, 4); "table:items:+other" only t_other of the
+   dict's value (object 6); "nope" and "kids.t_true" raise. *)
 Open Scope Z_scope.
 Example hooks_nontrivial :
   let txt l := map (fun c => of_code c false) l in
@@ -253,7 +275,10 @@ Example hooks_nontrivial :
   hit_codes (run (txt [43; 116; 97; 103])) = [0; 1; 2; 3; 4]
   /\ hit_codes (run (txt [99; 104; 105; 108; 100; 58; 43; 116; 97; 103])) = [16; 17; 18; 19; 20]
   /\ hit_codes (run (txt [99; 104; 105; 108; 100; 46; 42])) = [8; 16; 17; 18; 19; 20; 21; 22; 23]
+  /\ zset_eqb (hit_codes (run (txt [107; 105; 100; 115; 46; 105; 116; 101; 109; 115; 46; 116; 95; 122; 101; 114; 111])))
+              [10; 41; 50; 66] = true
+  /\ hit_codes (run (txt [116; 97; 98; 108; 101; 58; 105; 116; 101; 109; 115; 58; 43; 111; 116; 104; 101; 114])) = [103]
   /\ has_err (run (txt [110; 111; 112; 101])) = true
+  /\ has_err (run (txt [107; 105; 100; 115; 46; 116; 95; 116; 114; 117; 101])) = true
   /\ has_err (run (txt [43; 116; 97; 103])) = false.
 Proof. vm_compute. repeat split. Qed.
-
